@@ -803,6 +803,32 @@ func runC28Third(c *Ctx) {
 			c.undecided("C28.record-key", "NewAccumulator", f.Pos(), "no store of the record key")
 		}
 	}
+	// merkleTree.Add stores every verified proof node: the store runs over the whole list
+	if f := c.mustFn(pkg, "merkleTree", "Add"); f != nil {
+		n := 0
+		for _, cs := range c.calls(f, byMethod("Put")) {
+			n++
+			_, a := callArgs(cs.Common())
+			okL := false
+			detail := "Put(" + render(a[0]) + ") outside a loop over the proof nodes"
+			if h := loopHeaderOf(cs.Instr.Block()); h != nil {
+				if idx, bound, isLoop := indexLoop(h); isLoop && bound != nil {
+					if ld, isLd := unwrap(a[0]).(*ssa.UnOp); isLd && ld.Op == token.MUL {
+						if ia, isIA := ld.X.(*ssa.IndexAddr); isIA && ia.Index == idx && render(bound) == "len("+render(ia.X)+")" {
+							if ms, isMS := ia.X.(*ssa.MakeSlice); isMS && render(ms.Len) == "len($2)" {
+								okL = true
+							}
+							detail = "loop over " + render(ia.X)
+						}
+					}
+				}
+			}
+			c.check(okL, "C28.add-stores-proof", "merkleTree.Add stores every verified proof node", cs.Pos(), "for i := range nodes { Put(nodes[i]) } over one node per proof element", detail+": an upper branch of a multi-node proof is verified but not stored, and the next key under it cannot be resolved")
+		}
+		if n == 0 {
+			c.undecided("C28.add-stores-proof", "merkleTree.Add", f.Pos(), "no Put call")
+		}
+	}
 	if f := c.mustFn(pkg, "", "LevelFromLen"); f != nil {
 		for _, cs := range c.calls(f, func(cc *ssa.CallCommon) bool {
 			cal := cc.StaticCallee()
